@@ -701,6 +701,7 @@ type predDef struct {
 	oldHeaps []string // two-state predicates: heaps read under old(...)
 	formals  []string // formal argument names in application order
 	body     string
+	binders  string // sorted binders of the formals, for the quantified form of the definition
 }
 
 // paramVal builds a formal parameter value of the given kind (ghost kind or Go type expression).
@@ -783,8 +784,7 @@ func (eng *Engine) predDef(fv *FuncVerifier, sf *SpecFunc) (*predDef, string) {
 	app := "(" + pd.name + " " + strings.Join(append(hf, formals...), " ") + ")"
 	eng.predDecls = append(eng.predDecls, "(declare-fun "+pd.name+" ("+strings.Join(sorts, " ")+") Bool)")
 	eng.predDecls = append(eng.predDecls, "")
-	_ = hb
-	_ = binders
+	pd.binders = strings.Join(append(hb, binders...), " ")
 	_ = app
 	pd.formals = append(append([]string{}, hf...), formals...)
 	pd.body = body.T
